@@ -23,7 +23,7 @@ fn operands(op: &Op) -> Vec<usize> {
         Append(a, b) | Prepend(a, b) | InsertAfter(a, b) | InsertBefore(a, b) | Replace(a, b) | AppendAttrNode(a, b) | AppendNsNode(a, b) | AnyAppend(a, b) => vec![*a, *b],
         Detach(a) | Remove(a) | Wrap(a, _) | Unwrap(a) | CloneNode(a) | CloneWithPrefixes(a) | AttrInsert(a, ..) | AttrRemove(a, ..) | AttrClear(a)
         | AttrGetMut(a, ..) | SetAttribute(a, ..) | RemoveAttribute(a, ..) | AttrEntryOrInsert(a, ..) | NsInsert(a, ..) | NsRemove(a, ..) | NsClear(a)
-        | SetNamespace(a, ..) | RemoveNamespace(a, ..) | SetElementName(a, ..) | TextSet(a, ..) | CommentSet(a, ..) | PiSetData(a, ..) | AttrNodeSet(a, ..)
+        | SetNamespace(a, ..) | AppendNamespace(a, ..) | ElementMutSetName(a, ..) | PiSetTarget(a, ..) | RemoveNamespace(a, ..) | SetElementName(a, ..) | TextSet(a, ..) | CommentSet(a, ..) | PiSetData(a, ..) | AttrNodeSet(a, ..)
         | NsNodeSet(a, ..) | TextContentSet(a, ..) | AppendText(a, ..) | AppendElement(a, ..) | AppendComment(a, ..) | AppendPi(a, ..) | NewDocWithElement(a)
         | RemoveWs(a) | CreateMissingPrefixes(a) | Dedup(a) => vec![*a],
         New(_) | Parse(_) | ParseFragment(_) | SetConsolidation(_) => vec![],
